@@ -228,7 +228,8 @@ func reifyMap(opts *options, to reflect.Value, from *Config, validators []valida
 			return err
 		}
 		if v.IsValid() {
-			to.SetMapIndex(key, v)
+			// v is of the element's base type when an existing *T entry was merged into
+			to.SetMapIndex(key, pointerize(to.Type().Elem(), v.Type(), v))
 		}
 	}
 
@@ -603,7 +604,8 @@ func reifyDoArray(
 				return reflect.Value{}, err
 			}
 			if v.IsValid() {
-				to.Index(idx).Set(v)
+				// v is of the element's base type when an existing *T entry was merged into
+				to.Index(idx).Set(pointerize(to.Index(idx).Type(), v.Type(), v))
 			}
 		} else {
 			if err := tryRecursiveValidate(to.Index(idx), opts.opts, nil); err != nil {
